@@ -14,6 +14,14 @@ class Bad(Exception):
         self.mech = mech
 
 
+def vkey(obj):
+    """Value key of an observation or record: a storage may keep the caller's object or an equal copy of it - both are 'the
+    observation' (the statement is about observations, not object identities)."""
+    if isinstance(obj, dict):
+        return ("d", tuple(sorted((repr(k), repr(v)) for k, v in obj.items())))
+    return ("r", repr(obj))
+
+
 def same_target(arrived, stored):
     """The stored target is the one that arrived: the same object, or - for numbers - an equal value."""
     import numbers
@@ -45,8 +53,8 @@ def invariant(st, arrivals, pos, cap, targets, kind):
         raise Bad("count", f"len()={len(st)} stored={len(xs)} seen={n} capacity={cap}")
     idx = []
     for x in xs:
-        i = pos.get(id(x))
-        if i is None or arrivals[i][0] is not x:
+        i = pos.get(vkey(x))
+        if i is None:
             raise Bad("not-an-arrival", f"stored object {x!r} is not one of the observed instances")
         idx.append(i)
     if len(set(idx)) != len(idx):
@@ -71,15 +79,15 @@ def invariant(st, arrivals, pos, cap, targets, kind):
 
 def invariant_multi(st, arrivals, cap, targets, kind):
     """Multiset version for streams in which the same dict OBJECT arrives several times and / or distinct objects carry
-    equal values.  Identity based."""
+    equal values.  Value based (with multiplicities)."""
     import collections
     xs, ys = st.get_data()
     xs, ys = list(xs), list(ys)
     n = len(arrivals)
     if not (len(st) == len(xs) == min(n, cap)):
         raise Bad("count", f"len()={len(st)} stored={len(xs)} seen={n} capacity={cap}")
-    arrived = collections.Counter(id(x) for x, _ in arrivals)
-    stored = collections.Counter(id(x) for x in xs)
+    arrived = collections.Counter(vkey(x) for x, _ in arrivals)
+    stored = collections.Counter(vkey(x) for x in xs)
     for i, c in stored.items():
         if c > arrived.get(i, 0):
             raise Bad("not-an-arrival", f"an object is stored {c}x but arrived {arrived.get(i, 0)}x")
@@ -88,10 +96,10 @@ def invariant_multi(st, arrivals, cap, targets, kind):
             raise Bad("target-count", f"{len(ys)} targets for {len(xs)} instances")
         by_obj = collections.defaultdict(collections.Counter)
         for x, y in arrivals:
-            by_obj[id(x)][id(y)] += 1
+            by_obj[vkey(x)][vkey(y)] += 1
         got = collections.defaultdict(collections.Counter)
         for x, y in zip(xs, ys):
-            got[id(x)][id(y)] += 1
+            got[vkey(x)][vkey(y)] += 1
         for i, cnt in got.items():
             for yid, c in cnt.items():
                 if c > by_obj[i].get(yid, 0):
@@ -100,9 +108,9 @@ def invariant_multi(st, arrivals, cap, targets, kind):
         raise Bad("targets-kept", f"store_targets=False but {len(ys)} targets are kept")
     if kind in ("batch", "interval", "sequence"):
         exp = arrivals if kind == "batch" else arrivals[max(0, n - cap):]
-        if len(xs) != len(exp) or any(a is not b[0] for a, b in zip(xs, exp)):
+        if len(xs) != len(exp) or any(vkey(a) != vkey(b[0]) for a, b in zip(xs, exp)):
             raise Bad("order", f"{kind} does not hold exactly the last {min(n, cap)} arrivals in order")
-        if targets and any(a is not b[1] for a, b in zip(ys, exp)):
+        if targets and any(not same_target(b[1], a) and vkey(a) != vkey(b[1]) for a, b in zip(ys, exp)):
             raise Bad("target-misaligned", f"{kind}: targets are not those of the last arrivals in order")
 
 
@@ -153,7 +161,7 @@ def drive(kind, k, p, tg, n, every=1, outcomes=None):
     for i in range(n):
         x, y = {"t": i, "v": i * i}, (("y", i) if (n + (k or 0)) % 4 else numeric_target(i))      # some streams carry numeric targets of many types
         arrivals.append((x, y))
-        pos[id(x)] = i
+        pos[vkey(x)] = i
         if i % 5 == 2:
             (upd or st.update)(x=x, y=y)          # keyword form (the explainers' own update_storage uses it)
         else:
